@@ -167,11 +167,13 @@ def configurations(seed):
     cfg.append(('contract global INVOKE', 'INVOKE', {}, 'contract-global', b''))
     cfg.append(('contract per run CHECK_TRANSFER', 'CHECK_TRANSFER', {}, None, b''))
     # the flag instructions change exactly the flag they name (probe of k and of its neighbours in the same body)
-    for k in (0, 1, 2, 9):
+    for k in range(11):
         for instr, fl in (('UNSET_FLAG', {}), ('SET_FLAG', {k: False})):
-            for pk_ in (k, (k + 1) % 10 if k != 9 else 1):
+            for pk_ in (k, (k + 1) % 10 if k not in (9, 10) else 1):
                 cfg.append(('%s %d then probe %d' % (instr, k, pk_), FLAG_PROBE[pk_], dict(fl), None,
                             op(instr) + b'\x01' + bytes([k])))
+    for k, pname in ((7, 'DAS'), (9, 'DAS'), (9, 'SIGN_STACK'), (4, 'MASV'), (5, 'MASV'), (6, 'MASV'), (3, 'MASV'), (8, 'MASV')):
+        cfg.append(('UNSET_FLAG %d then probe %s' % (k, pname), pname, {}, None, op('UNSET_FLAG') + b'\x01' + bytes([k])))
     return cfg
 
 
